@@ -16,7 +16,7 @@ RULE = ("+,-,* whose result format is imposed by a sizing policy (same/largest/s
         "using the wrong object's mode is visible. Generated: exhaustive code pairs for n_word<=4 formats x policies; Hypothesis for 2<=n_word<=12, 0<=n_frac<=n_word-sign. "
         "Non-trivial = exact result inexact or out of range in the target format; distinct = distinct case keys.")
 ASSUMPTIONS = ['operands created from raw codes, no scale/bias', 'constants are dyadic rationals exactly representable as doubles']
-EXHAUSTIVE = True
+EXHAUSTIVE = False    # the whole quantifier is not enumerated; complete sub-domains are listed in EXHAUSTIVE_SUBDOMAINS
 EXHAUSTIVE_SUBDOMAINS = {'quick': ['all code pairs of sampled format pairs n_word<=4 x 4 sizing policies x 3 ops x 10 governing modes'],
                          'thorough': ['all code pairs of all format pairs n_word<=4 (n_frac 0..n_word-sign) x 4 policies x 3 ops x 10 modes']}
 REQUIRED_CLASSES = {'inexact-or-overflow': 2000, 'variant:sizing': 500, 'variant:const': 500, 'variant:out': 300, 'variant:out_like': 300, 'unary': 300}
